@@ -552,6 +552,155 @@ def rule_L01_convex(ctx):
     return res
 
 
+# ---------------------------------------------------------------------------------------------------------------
+# L04 (C03): the exponential kinds compute their documented recurrences, coefficient by coefficient
+# ---------------------------------------------------------------------------------------------------------------
+# kind -> (number of cascaded exponential stages, smoothing constant as a function of the length n, output as a combination of the new
+# stage values e1, e2, e3). This table is the text of property C03 / of the crate's documentation, not something read off the code.
+RECURRENCES = {
+    'EMA': (1, lambda n: RF.const(2).div(n + ONE), lambda e: e[0]),
+    'RMA': (1, lambda n: ONE.div(n), lambda e: e[0]),
+    'WSMA': (1, lambda n: ONE.div(n), lambda e: e[0]),
+    'DMA': (2, lambda n: RF.const(2).div(n + ONE), lambda e: e[1]),
+    'TMA': (3, lambda n: RF.const(2).div(n + ONE), lambda e: e[2]),
+    'DEMA': (2, lambda n: RF.const(2).div(n + ONE), lambda e: _lin_comb([(RF.const(2), e[0]), (RF.const(-1), e[1])])),
+    'TEMA': (3, lambda n: RF.const(2).div(n + ONE), lambda e: _lin_comb([(RF.const(3), e[0]), (RF.const(-3), e[1]), (ONE, e[2])])),
+}
+
+
+def _lin_comb(terms):
+    out = {}
+    for c, form in terms:
+        for a, v in form.items():
+            out[a] = out.get(a, ZERO) + c * v
+    return out
+
+
+def _forms_equal(a, b, sub, assume):
+    for atom in set(a) | set(b):
+        x, y = _sub(a.get(atom, ZERO), sub), _sub(b.get(atom, ZERO), sub)
+        if x.eq(y):
+            continue
+        r_ = _compare_over_range(x, y, ZERO, ZERO, sub, assume)
+        if r_ is True:
+            continue
+        return (False if (r_ is False or (wlin.p_syms(x.n) | wlin.p_syms(x.d) | wlin.p_syms(y.n) | wlin.p_syms(y.d)) <= {'k'}) else None), atom, x, y
+    return True, None, None, None
+
+
+def rule_L04_recurrences(ctx):
+    m = Model(ctx.facts())
+    f = m.f
+    res = RuleResult('L04', 'EMA, RMA, WSMA, DMA, TMA, DEMA, TEMA: one step of next() is, coefficient by coefficient and for every length, the documented recurrence '
+                            '(smoothing 2/(n+1) resp. 1/n, stages cascaded, documented output combination), and new() starts every stage at the first value')
+    done = 0
+    for impl in m.method_impls:
+        adt = m.adt_path_of_impl(impl)
+        short = adt.rsplit('::', 1)[-1] if adt else None
+        if short not in RECURRENCES:
+            continue
+        nstage, alpha_of, out_of = RECURRENCES[short]
+        nb = m.body(m.impl_fn_path(impl, 'new'))
+        xb = m.body(m.impl_fn_path(impl, 'next'))
+        pmax = {'u8': 255, 'u16': 65535}.get(nb.local_ty(1), 65535)
+        ok = True
+        for r in range(MOD):
+            wlin.PARAM_RANGE['kmin'] = 0 if r else 1
+            wlin.PARAM_RANGE['kmax'] = (pmax - r) // MOD
+            n_rf = RF.const(MOD) * RF.sym('k') + RF.const(r)
+            alpha = alpha_of(n_rf)
+            try:
+                def mk_new():
+                    box = {'v': Aff(True, ONE, ZERO, False, {'first value': ONE})}
+                    return [_param_value(None, r), Ref(box, 'v')]
+                for crun, cargs, cres in explore(f, nb, mk_new):
+                    if not (isinstance(cres, Obj) and cres.variant == 'Ok'):
+                        continue
+                    sub0, infeasible = _apply_assumptions(crun.assume)
+                    if infeasible is True:
+                        continue
+                    s0 = cres.f.get('0')
+                    if not isinstance(s0, Obj):
+                        raise Abstain('constructed value is not tracked')
+                    stage_leaves = [('/'.join(p), x) for p, x in leaves(s0) if isinstance(x, Aff) and x.lin]
+                    key0 = '%s|n=%dk+%d' % (short, MOD, r)
+                    res.inst(key0 + '|new')
+                    if len(stage_leaves) != nstage:
+                        res.violate('%s|stages' % short, '%s::new builds %d stream-dependent state values, the documented recurrence has %d stages' % (short, len(stage_leaves), nstage), nb.file, nb.line)
+                        ok = False
+                        continue
+                    for name, x in stage_leaves:
+                        if x.co is None or set(x.co) != {'first value'} or not x.co['first value'].eq(ONE) or not x.c.is_zero():
+                            res.violate('%s|new|%s' % (short, name), '%s::new starts the stage %s at %r, not at the first value' % (short, name, x), nb.file, nb.line)
+                            ok = False
+
+                    def mk_next(s0=s0):
+                        st = copy.deepcopy(s0)
+                        _label(st)
+                        box = {'s': st, 'x': Aff(True, ONE, ZERO, False, {'input': ONE})}
+                        return [Ref(box, 's'), Ref(box, 'x')]
+                    for run, args, out in explore(f, xb, mk_next):
+                        sub, infeasible = _apply_assumptions(crun.assume + run.assume)
+                        if infeasible is True:
+                            continue
+                        if run.data_dependent:
+                            raise Abstain('data-dependent path')
+                        assume = crun.assume + run.assume
+                        new = {'/'.join(p): x for p, x in leaves(args[0].get()) if isinstance(x, Aff) and x.lin}
+                        if set(new) != {nm for nm, _ in stage_leaves} or any(x.co is None for x in new.values()) or not isinstance(out, Aff) or out.co is None:
+                            raise Abstain('state after the step is not tracked coefficient by coefficient')
+                        # order the stages by dependency: stage 1 depends on the input and itself only, stage i on stage i-1 and itself
+                        names = list(new)
+                        order = []
+                        remaining = set(names)
+                        prev_atoms = {'input'}
+                        while remaining:
+                            nxt = [nm for nm in remaining if {a for a, c in new[nm].co.items() if not _sub(c, sub).is_zero()} <= prev_atoms | {nm}]
+                            if len(nxt) != 1:
+                                res.violate('%s|cascade' % short, '%s::next does not update its stages as a cascade (stage i from the new value of stage i-1 and its own old value): '
+                                            'remaining stages %s depend on %s' % (short, sorted(remaining), {nm: sorted(a for a, c in new[nm].co.items() if not _sub(c, sub).is_zero()) for nm in sorted(remaining)}),
+                                            xb.file, xb.line)
+                                ok = False
+                                order = None
+                                break
+                            order.append(nxt[0])
+                            remaining.discard(nxt[0])
+                            prev_atoms = prev_atoms | {nxt[0]}
+                        if order is None:
+                            continue
+                        # the documented stage values after the step, as explicit forms over the atoms
+                        e = []
+                        prev_form = {'input': ONE}
+                        for nm in order:
+                            form = _lin_comb([(alpha, prev_form), (ONE - alpha, {nm: ONE})])
+                            e.append(form)
+                            prev_form = form
+                        for i, nm in enumerate(order):
+                            res.inst('%s|stage%d' % (key0, i + 1))
+                            eq, atom, x, y = _forms_equal(new[nm].co, e[i], sub, assume)
+                            if eq is None:
+                                raise Abstain('stage %d: coefficient of %s not decided' % (i + 1, atom))
+                            if not eq or not new[nm].c.is_zero():
+                                res.violate('%s|stage%d|%s' % (short, i + 1, atom), '%s::next updates stage %d (%s) with coefficient %s of %s; the documented recurrence '
+                                            '(smoothing %s) gives %s' % (short, i + 1, nm, x, atom, alpha, y), xb.file, xb.line)
+                                ok = False
+                        res.inst(key0 + '|output')
+                        eq, atom, x, y = _forms_equal(out.co, out_of(e), sub, assume)
+                        if eq is None:
+                            raise Abstain('output: coefficient of %s not decided' % atom)
+                        if not eq or not out.c.is_zero():
+                            res.violate('%s|output|%s' % (short, atom), '%s::next returns coefficient %s of %s; the documented combination of the stages gives %s' % (short, x, atom, y), xb.file, xb.line)
+                            ok = False
+            except Abstain as ex:
+                res.undecided.append('%s: %s' % (short, ex))
+                ok = False
+        if ok:
+            done += 1
+            res.sample({'kind': short, 'stages': nstage, 'verdict': 'next() is the documented recurrence for every length; new() starts every stage at the first value'})
+    res.floor('exponential kinds decided', 7, done + len({v.key.split('|')[0] for v in res.violations}))
+    return res
+
+
 def rule_L03_dimensions(ctx):
     """C15 (affine equivariance): dimensional analysis of every moving average. The stream carries the unit `price`; configuration
     quantities and literals are pure numbers. next() may compare two quantities only when they have the same dimension and the same
